@@ -260,17 +260,21 @@ CLAIMED['C15'] = dict(
 
 CLAIMED['C04'] = dict(
     engine='E-cell',
-    text='Rocq theorems for all histories in which instances of one affinity declare the same limits: C04_invariant / '
-         'C04_cycle (invariant in every reachable state / kept by any cycle), C04_server_counts (the per-server '
-         'affinity counter the scheduler keeps equals the true count), C04_server_limit (no server holds more '
-         'instances of an affinity than they allow at server level). C04_levels_refuted: machine-checked witness '
-         '(vm_compute) that the code as it is exceeds a rack limit through the eviction path (known finding). Partial: '
-         'counters and limits of racks/pods/cell are decided by the per-operation correspondence (stored counters of '
-         'every bucket are in the digest) and the C04 oracle (recount from the leaves).',
+    text=('Rocq theorems for all histories of events and cycles in which instances of one affinity declare the same limits '
+         '(the property\'s own proviso): C04_invariant / C04_cycle, C04_server_counts, C04_server_limit (no server holds '
+         'more instances of an affinity than they allow at server level); C04_bucket_counts / C04_cell_counts / '
+         'C04_counts_cycle: in every reachable state the affinity counter kept by EVERY bucket (rack, pod, cell) equals '
+         'the number of instances of that affinity placed on the servers below it, through topology changes and every '
+         'path of a cycle - so "the per-node affinity counts equal the true counts" is a theorem at every level. '
+         'C04_levels_refuted: machine-checked witness that limits above server level are exceeded through the eviction '
+         'path on the code as it is (known finding, TODO in the source); limits above server level are therefore decided '
+         'by the correspondence and the recount oracle, every violation found goes through a direct put or a topology '
+         'change under load and is listed in known_findings.json.'),
     note=SCHED_NOTE + ' Hypotheses (wf_ops_aff): those of C01 plus: a new instance declares the same limits as the '
          'existing instances of its affinity.',
-    technique='Rocq proof (inductive invariant over primitive transitions) + refutation witness by vm_compute + '
-              'per-operation digest correspondence + oracle',
+    technique=('Rocq proof (inductive invariants over primitive transitions; bucket counters by a finer step relation and the '
+              'exact effect of the upward counter walk) + refutation witness + per-operation digest correspondence + '
+              'oracle'),
     ref='DESIGN.md section 7 C04')
 CLAIMED['C03'] = dict(
     engine='E-cell',
@@ -332,16 +336,24 @@ CLAIMED['C07'] = dict(
     ref='DESIGN.md section 7 C07')
 CLAIMED['C02'] = dict(
     engine='E-cell',
-    text='C02_tracker_refuted: machine-checked witness (vm_compute) that on the code as it is a fitting trait-less probe '
-         'is skipped by the PlacementFeasibilityTracker after a pending instance of the same affinity that needs an '
-         'unavailable trait (known finding). Proved for every cell state: C02_attempt_is_local (a fresh placement '
-         'attempt changes no other instance and no server that is not up), C02_attempt_steps. Partial: completeness of '
-         'Bucket.put (aggregates never hide a fitting server; the spread cursor visits every live child) is decided by '
-         'the per-operation correspondence (stored free vectors, labels, traits, counters and cursors of every bucket '
-         'are in the digest) and the C02 oracle (cell driven quiescent, one probe, leaf scan of all servers).',
-    note=SCHED_NOTE,
-    technique='refutation witness by vm_compute + Rocq frame lemmas + per-operation digest correspondence + '
-              'quiescent-probe oracle',
+    text=('Rocq theorems on the model. C02_aggregates_never_hide: in every reachable state (any history: servers and buckets '
+         'added, moved, removed, going down/frozen/up, every path of a cycle) no stored aggregate hides an up server - every '
+         'bucket above it stores a free vector >= the server\'s, its partition label and its traits - and the tree is well '
+         'formed; C02_walk_complete: in every reachable state, if some up server passes Server.put\'s guard for a pending '
+         'instance and the affinity counters leave head-room on the way down, the placement walk from the cell root places '
+         'it (the spread cursor visits every live child; failed sibling attempts only move cursors); C02_turn_places: a '
+         'pending instance whose turn it is (not blacklisted, not over the cap, identity available, not held back by the '
+         'feasibility tracker) ends its turn placed whenever such a server exists at that moment; C02_attempt_is_local, '
+         'C02_attempt_steps. C02_tracker_refuted: machine-checked witness of the known finding (the tracker shape omits the '
+         'instance\'s traits), hence the tracker premise. Left to the correspondence and the quiescent-probe oracle: that '
+         'the turns ahead of the probe leave the fitting server as it is in a quiescent cell.'),
+    note=SCHED_NOTE + ' Side conditions of the all-histories theorems (wf_ops, wf_ops_agg): fresh names (a new bucket name is '
+         'neither a server nor a bucket, a new server name not a bucket), an existing parent bucket for a new or moved '
+         'node, vectors of the cell dimension.',
+    technique=('Rocq proof (edge-local aggregate invariant through adjust_capacity_up/down with their early returns, '
+              'add_labels, trait propagation, topology operations and every step of a cycle; completeness of the '
+              'cursor walk by induction on the depth) + refutation witness + per-operation digest correspondence + '
+              'quiescent-probe oracle'),
     ref='DESIGN.md section 7 C02')
 
 NOT_YET = {}
